@@ -919,6 +919,128 @@ def _corr_option_leak(ctx):
                          oracle=lambda c: {"probe": c["probe"], "options": repr(opts), "what": "options given to one constructor call changed the defaults seen by a later default-constructed object"})
 
 
+# ==============================================================================================
+# (A6) constructor options and shared defaults (model: OptWorld; theorems C19_defaults_fresh / _shared_partial / _leak)
+
+
+def _opt_classes():
+    import jax.numpy as jnp
+    from scico import loss
+    from scico.optimize import admm as admmaux
+
+    y = jnp.arange(4.0)
+    # (name, pattern, attribute, literal defaults, constructor(options dict | None), default-argument object | None)
+    return [
+        ("LinearSubproblemSolver.cg_kwargs", "copyUpdate", "cg_kwargs", {"tol": 1e-4, "maxiter": 100},
+         lambda kw: admmaux.LinearSubproblemSolver() if kw is None else admmaux.LinearSubproblemSolver(cg_kwargs=kw), None),
+        ("MatrixSubproblemSolver.solve_kwargs", "copyUpdate", "solve_kwargs", {"cho_factor": False},
+         lambda kw: admmaux.MatrixSubproblemSolver() if kw is None else admmaux.MatrixSubproblemSolver(solve_kwargs=kw), None),
+        ("SquaredL2Loss.prox_kwargs", "copyUpdate", "prox_kwargs", {"maxiter": 100, "tol": 1e-5},
+         lambda kw: loss.SquaredL2Loss(y=y) if kw is None else loss.SquaredL2Loss(y=y, prox_kwargs=kw), None),
+        ("GenericSubproblemSolver.minimize_kwargs", "byRef", "minimize_kwargs", {"options": {"maxiter": 100}},
+         lambda kw: admmaux.GenericSubproblemSolver() if kw is None else admmaux.GenericSubproblemSolver(minimize_kwargs=kw),
+         admmaux.GenericSubproblemSolver.__init__.__defaults__[0]),
+    ]
+
+
+def _opt_case(ctx, model, spec, ops):
+    """ops: ("dict", {k: int}) | ("ctor", id|None) | ("mut", id, key, int).  Values of the literal defaults are
+    encoded by their position in a table (the model's values are integers)."""
+    import copy
+
+    name, pattern, attr, lit, mk, default_obj = spec
+    table = []
+
+    def enc(v):
+        if isinstance(v, int) and not isinstance(v, bool) and v >= 1000:
+            return v  # values written by this test
+        for i, t in enumerate(table):
+            if type(t) is type(v) and t == v:
+                return i
+        table.append(copy.deepcopy(v))
+        return len(table) - 1
+
+    def encd(d):
+        return [[k, enc(v)] for k, v in d.items()]
+
+    lit_enc = encd(lit)
+    saved = copy.deepcopy(default_obj) if default_obj is not None else None
+    dicts = [default_obj if default_obj is not None else dict(lit)]
+    objs = []
+    mops = []
+    case = {"kind": "opts", "cls": name, "pattern": pattern, "ops": [list(o) for o in ops]}
+    try:
+        steps = []
+        for o in ops:
+            if o[0] == "dict":
+                d = dict(o[1])
+                dicts.append(d)
+                mops.append({"k": "dict", "d": encd(d)})
+            elif o[0] == "ctor":
+                arg = None if o[1] is None or o[1] >= len(dicts) else dicts[o[1]]
+                ob = mk(arg)
+                objs.append(ob)
+                held = getattr(ob, attr)
+                if not any(held is d for d in dicts):
+                    dicts.append(held)
+                mops.append({"k": "ctor", "arg": None if arg is None else o[1]})
+            else:
+                if o[1] < len(dicts):
+                    dicts[o[1]][o[2]] = o[3]
+                mops.append({"k": "mut", "id": o[1], "key": o[2], "val": o[3]})
+            steps.append({"insts": [next(i for i, d in enumerate(dicts) if d is getattr(ob, attr)) for ob in objs],
+                          "dicts": [encd(d) for d in dicts]})
+        m = model.call("opts", pattern=pattern, lit=lit_enc, ops=mops)
+        ctx.case(case, ("opts", name, json.dumps(case["ops"], sort_keys=True)))
+        ctx.count(f"opts:{pattern}")
+        for k, (a, b) in enumerate(zip(steps, m)):
+            bd = [sorted(map(tuple, d)) for d in b["dicts"]]
+            ad = [sorted(map(tuple, d)) for d in a["dicts"]]
+            if a["insts"] != b["insts"] or ad != bd:
+                def oracle(c, k=k, a=a):
+                    # the property: an object constructed without options after this history sees the literal defaults
+                    # unless the history itself wrote into the options of a default-constructed object
+                    wrote = any(o[0] == "mut" and o[1] == 0 for o in ops)
+                    fresh = getattr(mk(None), attr)
+                    if not wrote and encd(fresh) != lit_enc:
+                        return {"case": c, "step": k, "later_default_constructed_object_sees": repr(fresh), "literal_defaults": repr(lit),
+                                "what": "options / in-place state of earlier objects leak into an object constructed with defaults"}
+                    return None
+
+                ctx.disagree("cache.opts", {**case, "at": k}, a, b, oracle=oracle)
+                return
+    finally:
+        if default_obj is not None:
+            default_obj.clear()
+            default_obj.update(saved)
+
+
+def _corr_opts(ctx, model):
+    specs = _opt_classes()
+    ctx.extra["option_patterns"] = {s[0]: s[1] for s in specs}
+    for spec in specs:
+        keys = list(spec[3].keys())
+        fixed = [
+            [("ctor", None), ("dict", {keys[0]: 1001}), ("ctor", 1), ("ctor", None)],
+            [("ctor", None), ("mut", 0, keys[0], 1002), ("ctor", None)],
+        ]
+        for ops in fixed:
+            _opt_case(ctx, model, spec, ops)
+        for _ in range(ctx.n(2, 10)):
+            ops, nd = [], 1
+            for _ in range(int(ctx.rng.integers(3, 8))):
+                r = ctx.rng.random()
+                if r < 0.25:
+                    ops.append(("dict", {keys[int(ctx.rng.integers(0, len(keys)))]: 1000 + int(ctx.rng.integers(1, 50))} if ctx.rng.random() < 0.8 else {"extra": 1003}))
+                    nd += 1
+                elif r < 0.65:
+                    ops.append(("ctor", None if ctx.rng.random() < 0.5 else int(ctx.rng.integers(0, nd + 1))))
+                    nd += 1  # upper bound of the number of dictionary objects
+                else:
+                    ops.append(("mut", int(ctx.rng.integers(0, nd)), keys[int(ctx.rng.integers(0, len(keys)))] if ctx.rng.random() < 0.7 else "other", 1000 + int(ctx.rng.integers(50, 99))))
+            _opt_case(ctx, model, spec, ops)
+
+
 def _run_corpus(ctx, model):
     d = common.CORPUS_DIR / PROP
     if not d.exists():
@@ -990,6 +1112,7 @@ def correspond(ctx, model):
     timed("attach", _corr_attach, ctx, model)
     timed("rng", _corr_rng, ctx, model)
     timed("ctx", _corr_ctx, ctx, model)
+    timed("opts", _corr_opts, ctx, model)
     timed("mutation", _corr_mutation, ctx)
     timed("modes", _corr_modes, ctx)
     _global_state_check(ctx, state0)
